@@ -18,6 +18,7 @@ import (
 	"fmt"
 	"io"
 	"runtime/debug"
+	"strings"
 
 	"golang.org/x/crypto/hkdf"
 	"pgregory.net/rapid"
@@ -313,7 +314,20 @@ var v03BigVals = []uint64{0, 1, 2, 63, 64, 1199, 16383, 16384, 262143, 262144, 2
 // v03GenFrames: a hostile plaintext payload for an Initial packet.
 func v03GenFrames(rt *rapid.T) (pl []byte, desc string) {
 	hello, hdesc := v03GenClientHello(rt)
-	switch rapid.IntRange(0, 6).Draw(rt, "frameShape") {
+	switch rapid.IntRange(0, 8).Draw(rt, "frameShape") {
+	case 7, 8: // a set of CRYPTO frames drawn from the interval algebra over one consistent stream
+		stream := append(append([]byte(nil), hello...), v03Fill(400, 0x6c)...)
+		ivs, rels := v03GenIntervals(rt, len(hello), len(stream))
+		for _, iv := range rapid.Permutation(ivs).Draw(rt, "ivOrder") {
+			pl = append(pl, 0x06)
+			pl = v03PutVarint(pl, uint64(iv[0]), v03GenWidth(rt, uint64(iv[0]), "ivOffW"))
+			pl = v03Varint(pl, uint64(iv[1]-iv[0]))
+			pl = append(pl, stream[iv[0]:iv[1]]...)
+			if rapid.IntRange(0, 5).Draw(rt, "ivPad") == 5 {
+				pl = append(pl, 0x00, 0x01)
+			}
+		}
+		return pl, fmt.Sprintf("interval-set n=%d %s %v %s", len(ivs), strings.Join(rels, ","), ivs, hdesc)
 	case 6: // a complete, well-formed CRYPTO stream at maximal sizes: a hello padded (extension 21) up to what one
 		// UDP datagram can carry, in 1..6 contiguous frames in any order, placed so that it ends at / just past the 256 KiB cap
 		padSz := rapid.SampledFrom([]int{60000, 60000, 16000, 4000, 1500}).Draw(rt, "bigPad")
@@ -447,6 +461,107 @@ func v03GenFrames(rt *rapid.T) (pl []byte, desc string) {
 	default:
 		return rapid.SliceOfN(rapid.Byte(), 0, 48).Draw(rt, "plBytes"), "arbitrary-plaintext"
 	}
+}
+
+// v03GenIntervals draws 2..9 half-open byte ranges [a,b) of a stream of length max; the first one is the
+// "natural" frame (mostly [0,natural)), every further one stands in a drawn relation of the interval algebra
+// (before/after with a gap, adjacent, partial overlap on either side, strictly contained, containing, equal,
+// sharing the start or the end, empty inside / at an edge / beyond, many small ranges re-covering) to an
+// earlier one. Returned with the relation names for the case description.
+func v03GenIntervals(rt *rapid.T, natural, max int) (ivs [][2]int, rels []string) {
+	clip := func(x int) int {
+		if x < 0 {
+			return 0
+		}
+		if x > max {
+			return max
+		}
+		return x
+	}
+	first := [2]int{0, natural}
+	switch rapid.IntRange(0, 7).Draw(rt, "ivFirst") {
+	case 5:
+		first = [2]int{0, clip(natural / 2)}
+	case 6:
+		first = [2]int{clip(rapid.IntRange(1, 40).Draw(rt, "ivFirstStart")), natural}
+	case 7:
+		first = [2]int{0, clip(rapid.IntRange(0, 8).Draw(rt, "ivFirstTiny"))}
+	}
+	if first[1] < first[0] {
+		first[1] = first[0]
+	}
+	ivs, rels = append(ivs, first), append(rels, "first")
+	relNames := []string{"contained", "contained", "containing", "equal", "same-start-shorter", "same-start-longer", "same-end-shorter", "same-end-longer",
+		"overlap-right", "overlap-left", "adjacent-after", "adjacent-before", "gap-after", "gap-before",
+		"empty-inside", "empty-at-start", "empty-at-end", "empty-beyond", "many-small"}
+	for k := rapid.IntRange(1, 5).Draw(rt, "ivMore"); k > 0 && len(ivs) < 9; k-- {
+		r := rapid.SampledFrom(ivs).Draw(rt, "ivRef")
+		a, b := r[0], r[1]
+		l := b - a
+		d := func(label string, hi int) int { // 1..hi (>=1)
+			if hi < 1 {
+				hi = 1
+			}
+			return rapid.IntRange(1, hi).Draw(rt, label)
+		}
+		rel := rapid.SampledFrom(relNames).Draw(rt, "ivRel")
+		var n [2]int
+		switch rel {
+		case "contained":
+			i := d("ivIn1", l/2)
+			j := d("ivIn2", l/2)
+			n = [2]int{a + i, b - j}
+		case "containing":
+			n = [2]int{a - d("ivOut1", 20), b + d("ivOut2", 20)}
+		case "equal":
+			n = r
+		case "same-start-shorter":
+			n = [2]int{a, b - d("ivS1", l)}
+		case "same-start-longer":
+			n = [2]int{a, b + d("ivS2", 30)}
+		case "same-end-shorter":
+			n = [2]int{a + d("ivE1", l), b}
+		case "same-end-longer":
+			n = [2]int{a - d("ivE2", 30), b}
+		case "overlap-right":
+			n = [2]int{a + d("ivOR1", l), b + d("ivOR2", 30)}
+		case "overlap-left":
+			n = [2]int{a - d("ivOL1", 30), b - d("ivOL2", l)}
+		case "adjacent-after":
+			n = [2]int{b, b + d("ivAA", 40)}
+		case "adjacent-before":
+			n = [2]int{a - d("ivAB", 40), a}
+		case "gap-after":
+			g := d("ivGA", 10)
+			n = [2]int{b + g, b + g + d("ivGA2", 20)}
+		case "gap-before":
+			g := d("ivGB", 10)
+			n = [2]int{a - g - d("ivGB2", 20), a - g}
+		case "empty-inside":
+			x := a + d("ivEI", l) - 1
+			n = [2]int{x, x}
+		case "empty-at-start":
+			n = [2]int{a, a}
+		case "empty-at-end":
+			n = [2]int{b, b}
+		case "empty-beyond":
+			x := b + d("ivEB", 30)
+			n = [2]int{x, x}
+		case "many-small":
+			step := d("ivStep", 16)
+			for x := a; x < b && len(ivs) < 9; x += step {
+				ivs = append(ivs, [2]int{clip(x), clip(min(x+step+rapid.IntRange(0, 3).Draw(rt, "ivSmallExtra"), b))})
+			}
+			rels = append(rels, rel)
+			continue
+		}
+		n[0], n[1] = clip(n[0]), clip(n[1])
+		if n[1] < n[0] {
+			n[1] = n[0]
+		}
+		ivs, rels = append(ivs, n), append(rels, rel)
+	}
+	return ivs, rels
 }
 
 // v03GenProtected: a properly protected Initial carrying the payload.
